@@ -11,6 +11,18 @@ def run(ctx):
     tr = ctx.path("c05.ndjson")
     ctx.run_mvh(["c05", "-out", tr, "-seed", ctx.seed, "-tier", ctx.tier])
     recs = _stream.validate_streams(ctx, tr)
+    # streams of valid frames for a reader that has a key AND a dialect: spec-signed frames of dialect messages in canonical
+    # and non-canonical form (trailing zeros kept, bytes beyond the known fields) and of an id the dialect lacks - each must
+    # come out; frames lengthened after signing must not (vectors of Gen_SignedDl, as in C06)
+    import vf
+    defs = ctx.path("defs.json")
+    ctx.run_mvh(["defs", "-out", defs])
+    rc, out = ctx.tlc("Gen_SignedDl", env={"DEFS": defs, "DIALECT": defs + ".allplus.json", "VSEED": ctx.seed}, tag="gen:signed_dl", timeout=900)
+    if _stream.parse_vec_lines(out, ctx.path("sigdlvec.ndjson")) < 20:
+        raise vf.Inconclusive("Gen_SignedDl produced too few vectors:\n" + vf.tail(out, 30))
+    trd = ctx.path("c05d.ndjson")
+    ctx.run_mvh(["c06d", "-aux", "c05", "-vectors", ctx.path("sigdlvec.ndjson"), "-out", trd, "-seed", ctx.seed, "-tier", ctx.tier])
+    recs += _stream.validate_streams(ctx, trd, defs=defs)
     tags = {}
     for r in recs:
         tags[r["tag"]] = tags.get(r["tag"], 0) + 1
@@ -25,6 +37,6 @@ def run(ctx):
     ctx.cov["rule"] = ("one STREAM record per run of the real frame.Reader over a finite stream until the transport error: all strings "
                        "over {FE,FD,00,01,02} up to the length bound (whole and byte-by-byte), structured streams (valid/truncated/"
                        "corrupted frames, junk with and without markers) under chunkings cut at every region boundary and with a "
-                       "transport error injected at every offset; distinct = (tag, length, fault?, result kinds, chunked?) classes")
+                       "transport error injected at every offset; spec-signed canonical / non-canonical / unknown-id frames through a reader with key and dialect; distinct = (tag, length, fault?, result kinds, chunked?) classes")
     ctx.assumptions += ["cursor = bytes drawn from the transport minus bufio.Reader.Buffered()",
                         "MC_Frame (spec side): the format is prefix-free and self-delimiting, so 'the frame at the cursor' is well defined"]
